@@ -7,17 +7,17 @@ ids=[p['id'] for p in props]
 CLAIMS = {
  "C01": dict(
    technique="runtime monitoring: differential twin (matrix form vs scalar form in the same build) + independent reference arithmetic over a systematic operator x kind x shape-pair sweep; dispatch-arm coverage monitor; Miri stage: the kernels these constructs dispatch to are driven directly (crate /verif/miri) under the undefined-behaviour interpreter with the same value oracles",
-   text="Every swept cell (17 operators x 16 kinds x up to 110 shape pairs, 1-3 value draws) is executed through Interpreter::interpret on API-bound operands and judged elementwise against scalar evaluations and exact/IEEE reference arithmetic; incompatible shapes must be errors. Held on the executions produced, nothing is claimed for unvisited shapes or values. Each operand is written as an API-bound variable or as an inline literal (all four combinations; comparison operands come from a small pool so ties are frequent).",
+   text="Every swept cell (17 operators x 16 kinds x up to 110 shape pairs, 1-3 value draws) is executed through Interpreter::interpret on API-bound operands and judged elementwise against scalar evaluations and exact/IEEE reference arithmetic; incompatible shapes must be errors. Held on the executions produced, nothing is claimed for unvisited shapes or values. Each operand is written as an API-bound variable or as an inline literal (all four combinations; comparison operands come from a small pool so ties are frequent). A source-form stratum writes the same operands through mutable variables, parentheses, copies, record fields, tuple elements, slices of a wider matrix, full subscripts and literals assembled from scalar variables, writes the same variable on both sides (a op a, NaN included), and evaluates the formula inside match arms, with pattern-bound operands, inside function arms and comprehension heads; the oracle there is the evaluation with plain variables.",
    note="Trusts: the harness' reference arithmetic (i128/u128 checked, Rust f64/f32 primitives), canonicalisation through Matrix::as_vec/shape, and that binding operands with ProgramState::save_symbol is equivalent to defining them in source (a literal-built stratum cross-checks this).",
    ref="6/C01"),
  "C03": dict(
    technique="runtime monitoring: 1-based column-major reference selection model over a systematic kind x shape x index-form x boundary-variant sweep; before/after symbol snapshots (read purity); ASan flavour in thorough",
-   text="Every cell (16 kinds x 11 shapes x 31 index forms x in-range and each boundary out-of-range variant) is interpreted on a matrix whose elements encode their own linear index and compared with the reference selection (elements, order, count, documented 2-D shape); out-of-range and wrong-length masks must be errors; the symbol table must be unchanged by the read. Index expressions are written inline or bound to variables first; one mask in six selects nothing.",
+   text="Every cell (16 kinds x 11 shapes x 31 index forms x in-range and each boundary out-of-range variant) is interpreted on a matrix whose elements encode their own linear index and compared with the reference selection (elements, order, count, documented 2-D shape); out-of-range and wrong-length masks must be errors; the symbol table must be unchanged by the read. Index expressions are written inline or bound to variables first; one mask in six selects nothing. The indexed matrix is also reached through other source forms (mutable variable, copy, record field, tuple element, literal definition, chained full subscript), and subscripts that are local names (bound by a comprehension generator, a match arm or a function arm, with globals of the same names holding other valid positions) must select what the literal positions select.",
    note="Trusts the harness reference selector and canonicalisation; 'supported' forms are learned from the in-range read of the same cell (forms listed in docs/reference/indexing.mec must be supported on general matrices).",
    ref="6/C03"),
  "C04": dict(
    technique="runtime monitoring: reference store (model matrix + C01 reference arithmetic) compared with full-variable snapshots after every assignment statement; frame and failure-atomicity monitors; histories of 3-8 assignments; ASan flavour in thorough",
-   text="Every cell (kind x shape x index form x operator {=,+=,-=,*=,/=} x source {scalar, vector, wrong kind} x in-range / out-of-range variant) runs one statement in a session holding the target, a bystander and then compares every element, the shape, the kind, the bystander and the read-back with the model; failing statements must leave all symbols unchanged. Index expressions of the target are written inline or bound to variables first; all-false masks included.",
+   text="Every cell (kind x shape x index form x operator {=,+=,-=,*=,/=} x source {scalar, vector, wrong kind} x in-range / out-of-range variant) runs one statement in a session holding the target, a bystander and then compares every element, the shape, the kind, the bystander and the read-back with the model; failing statements must leave all symbols unchanged. Index expressions of the target are written inline or bound to variables first; all-false masks included. Scalar sources also draw exactly zero and a value an addressed element already holds.",
    note="Trusts the harness model; sources are written as typed literals (N<kind>); a statement form that fails on in-range input is treated as unsupported and only its atomicity is judged.",
    ref="6/C04"),
  "C05": dict(
@@ -52,12 +52,12 @@ CLAIMS = {
    ref="6/C12"),
  "C14": dict(
    technique="runtime monitoring: mathematical-set reference model over small universes with several spellings per element; structural invariant monitor (distinct elements, single kind, size = cardinality) applied to every set value observed; Miri stage: the kernels these constructs dispatch to are driven directly (crate /verif/miri) under the undefined-behaviour interpreter with the same value oracles",
-   text="Pairs of subsets of 5-element universes (f64, signed zeros, u8, i64, rationals with unreduced spellings, strings, bools, tuples, nested sets with permuted inner orders) are written as literals in permuted insertion orders and combined with every set operator, relation and membership test, chained, and built by comprehensions; results are compared with the mathematical result after mapping elements back to universe ids learned from singleton literals. Operands are written as variables or inline literals in every combination; sets converted from matrices with repeated entries and literals of mixed element kinds (must be rejected) are included.",
+   text="Pairs of subsets of 5-element universes (f64, signed zeros, u8, i64, rationals with unreduced spellings, strings, bools, tuples, nested sets with permuted inner orders) are written as literals in permuted insertion orders and combined with every set operator, relation and membership test, chained, and built by comprehensions; results are compared with the mathematical result after mapping elements back to universe ids learned from singleton literals. Operands are written as variables or inline literals in every combination; sets converted from matrices with repeated entries and literals of mixed element kinds (must be rejected) are included. Every operation and relation is also called by name (set/union(a, b), ...) and must return what the glyph form returns.",
    note="Element identity is the language's own equality (0 = -0, 2/4 = 1/2, {1,2} = {2,1}). Universes whose spellings exercise a recorded defect (signed zeros, permuted inner sets) are separate cells so the plain universes stay fully monitored.",
    ref="6/C14"),
  "C06": dict(
    technique="runtime monitoring: differential execution (interpreter session A vs compile -> from_bytes -> run_program in a FRESH interpreter B) over a construct sweep and typed composite programs; every stage under catch_unwind in a subprocess; unregistered-function attribution by compiling each plan step alone; ASan flavour in thorough",
-   text="Each generated program is interpreted, compiled, loaded and run in a fresh interpreter; canonical results must be equal, restricted-class programs must compile, load and run, and no stage may panic, hang or abort. Failures are attributed to the plan arm whose bytecode names an unregistered function. Programs end in a bare expression half of the time, contain non-ASCII strings and names, matrices of every integer kind, complex and rational arithmetic, and a sweep of every registered native function x 37 argument shapes; for assignment-free programs the loaded plan is re-evaluated once (step) and must give the same result.",
+   text="Each generated program is interpreted, compiled, loaded and run in a fresh interpreter; canonical results must be equal, restricted-class programs must compile, load and run, and no stage may panic, hang or abort. Failures are attributed to the plan arm whose bytecode names an unregistered function. Programs end in a bare expression half of the time, contain non-ASCII strings and names, matrices of every integer kind, complex and rational arithmetic, and a sweep of every registered native function x 37 argument shapes; for assignment-free programs the loaded plan is re-evaluated once (step) and must give the same result. Containers (set, table column, record field, tuple item) of every scalar element kind are compiled as definitions and as bare final expressions.",
    note="Only the program result is compared (the compiler emits no symbol section, so a fresh interpreter has no variables to compare). Composite programs are mostly drawn from the constructs whose bytecode is registered so that recorded registry gaps do not mask the rest.",
    ref="6/C06"),
  "C07": dict(
@@ -67,7 +67,7 @@ CLAIMS = {
    ref="6/C07"),
  "C19": dict(
    technique="runtime monitoring: snapshot comparison across independent interpreters, across step(0,n) vs n single steps, and across separate worker processes (digest of all snapshots per program compared by the driver); invariance monitor for assignment-free programs; Miri stage: the kernels these constructs dispatch to are driven directly (crate /verif/miri) under the undefined-behaviour interpreter with the same value oracles",
-   text="Each generated program is interpreted and its plan re-run for n in {1,2,3,7} steps in fresh interpreters; snapshots of all variables must agree between two interpreters, between one n-step request and n single steps, and (through digests) between 3 (quick) / 8 (thorough) separate processes with different hash seeds; programs without assignment statements must keep every variable exactly as the first evaluation left it. The corpus of 632 test programs and a sweep of every registered native function x argument shapes (variables and literals) are stepped too; a profiled interpreter must take the same steps.",
+   text="Each generated program is interpreted and its plan re-run for n in {1,2,3,7} steps in fresh interpreters; snapshots of all variables must agree between two interpreters, between one n-step request and n single steps, and (through digests) between 3 (quick) / 8 (thorough) separate processes with different hash seeds; programs without assignment statements must keep every variable exactly as the first evaluation left it. The corpus of 632 test programs and a sweep of every registered native function x argument shapes (variables and literals) are stepped too; a profiled interpreter must take the same steps. An index-form sweep (every 1-D and 2-D subscript form of C03, inline or through variables) is re-evaluated as assignment-free programs.",
    note="Panics escaping step() are caught and reported; the digest covers the snapshot after interpret and after every step count.",
    ref="6/C19"),
  "C08": dict(
@@ -87,22 +87,22 @@ CLAIMS = {
    ref="6/C10"),
  "C20": dict(
    technique="runtime monitoring: independent reference expander (line-exact substitution, CommonMark-style fence rule, cycle = revisit on the current inclusion path) compared byte for byte with mech::read_mech_source_file on generated directory trees; exhaustive enumeration of include-edge subsets; thorough adds an strace stage (only read-only opens inside the tree, as many as the reference performs expansions)",
-   text="For every subset of include edges over 3 files (and sampled / all subsets over 4 files) in 3 directories, with decorated include lines, fenced and brace look-alikes, repeated includes, missing targets, CRLF, missing trailing newline and a symlinked alias, loading the root must give exactly the reference expansion, report reachable cycles as circular includes, never report acyclic graphs as circular, and name missing files. Fence variants include lines that look like closers but are not, includes after the fence block, CRLF line ends, files that end in a fence or are empty, repeated includes on acyclic graphs, and brace lines containing .mec without ending in it.",
+   text="For every subset of include edges over 3 files (and sampled / all subsets over 4 files) in 3 directories, with decorated include lines, fenced and brace look-alikes, repeated includes, missing targets, CRLF, missing trailing newline and a symlinked alias, loading the root must give exactly the reference expansion, report reachable cycles as circular includes, never report acyclic graphs as circular, and name missing files. Fence variants include lines that look like closers but are not, includes after the fence block, CRLF line ends, files that end in a fence or are empty, repeated includes on acyclic graphs, and brace lines containing .mec without ending in it. Genuine closing fences are decorated the ways the fence rule allows (trailing blanks and tabs, longer runs, own indentation).",
    note="Trees are written under /verif/work/ and removed after each case; when a cycle and a missing file are both reachable either error is accepted.",
    ref="6/C20"),
  "C16": dict(
    technique="runtime monitoring: reference evaluator of arm lists (first arm in source order whose pattern matches and whose guard holds, with bindings) compared with interpreted calls over every permutation of arm families and every argument of a small domain; recurrences checked against closed forms; subprocess isolation for stack exhaustion",
-   text="Functions (one and two parameters) and match expressions built from literal, variable, wildcard, tuple, array and enum-payload patterns, with guards, are evaluated for every permutation of their arms on every argument of a small domain; arm bodies are tagged so that the selected arm and its binding are visible in the result. Factorial, fibonacci, power, gcd and a tail-recursive countdown (depth 2*10^4 quick, 2*10^5 thorough) are compared with the recurrence; scalar functions are applied to matrices; wrong arity, no matching arm and non-exhaustive matches must be errors. Also: the same variable name at different positions of different arms, tuple patterns of other arity, nested matches that use outer bindings (with a decoy global), tail recursion whose pattern variables are renamed or swapped, broadcasts of u64 / u8 / i64 / f32 functions over non-square matrices.",
+   text="Functions (one and two parameters) and match expressions built from literal, variable, wildcard, tuple, array and enum-payload patterns, with guards, are evaluated for every permutation of their arms on every argument of a small domain; arm bodies are tagged so that the selected arm and its binding are visible in the result. Factorial, fibonacci, power, gcd and a tail-recursive countdown (depth 2*10^4 quick, 2*10^5 thorough) are compared with the recurrence; scalar functions are applied to matrices; wrong arity, no matching arm and non-exhaustive matches must be errors. Also: the same variable name at different positions of different arms, tuple patterns of other arity, nested matches that use outer bindings (with a decoy global), tail recursion whose pattern variables are renamed or swapped, broadcasts of u64 / u8 / i64 / f32 functions over non-square matrices. Array patterns (head | tail, two-item prefix, first ... last, head spread, last spread) run over every numeric element kind, as function arms and match arms, with inline arguments and arguments held in variables.",
    note="Guards are only generated where the grammar has them (match expressions); a worker abort (stack overflow) is reported as a violation.",
    ref="6/C16"),
  "C17": dict(
    technique="runtime monitoring: offline trace checker over Interpreter::trace_events (start/step/arm/guard/transition/output events) against a reference simulation of generated transition systems; transition limit decided on the count of step events",
-   text="Generated machines (1-4 states, two payload fields, overlapping guards, fallbacks, loops) are run on inputs 0..7 with tracing on; every traced transition (arm index, next state, payload values) and the output must equal the reference simulation; ill-formed machines (wrong argument kind, undeclared target, declared but unimplemented state) must be rejected; non-terminating machines must stop with an error after exactly max_steps step events. Half of the multi-branch states are written as two arms for the same state (fall-through); array state patterns re-bind prefix / suffix variables across steps; machines are invoked from transitions and comprehensions with local names, and wrong-kind elements in a comprehension must be rejected.",
+   text="Generated machines (1-4 states, two payload fields, overlapping guards, fallbacks, loops) are run on inputs 0..7 with tracing on; every traced transition (arm index, next state, payload values) and the output must equal the reference simulation; ill-formed machines (wrong argument kind, undeclared target, declared but unimplemented state) must be rejected; non-terminating machines must stop with an error after exactly max_steps step events. Half of the multi-branch states are written as two arms for the same state (fall-through); array state patterns re-bind prefix / suffix variables across steps; machines are invoked from transitions and comprehensions with local names, and wrong-kind elements in a comprehension must be rejected. Array-pattern machines run over every numeric element kind, and a matrix of declared argument kinds x arguments (scalar kinds, unsized and sized matrix kinds; inline or held in a variable) demands acceptance exactly when the kinds agree.",
    note="Trace parsing relies on the rendered event messages (arm[i] ... -> :State(...) u64(@addr:value)); an unparsable transition event makes the case inconclusive, never a violation.",
    ref="6/C17"),
  "C18": dict(
    technique="runtime monitoring: relational-algebra reference joins over canonical rows compared (as multisets over the union of columns, with column kinds) with interpreted join expressions on generated tables; ordered comparison for row selection",
-   text="Pairs of generated tables (1-3 columns, 0-2 shared names, 1-5 rows, duplicate keys so that many-to-many matches occur, five column kinds) are joined with all six operators in symbol and word form; the result must be exactly the relational-algebra multiset of rows, columns that can be missing must be optional kinds and hold the empty value exactly in unmatched rows; selecting rows by index, repeated index vector and mask must return exactly those rows in order. Selections are also chained on temporary tables (vector then vector, mask then vector) and one mask in six selects no row.",
+   text="Pairs of generated tables (1-3 columns, 0-2 shared names, 1-5 rows, duplicate keys so that many-to-many matches occur, five column kinds) are joined with all six operators in symbol and word form; the result must be exactly the relational-algebra multiset of rows, columns that can be missing must be optional kinds and hold the empty value exactly in unmatched rows; selecting rows by index, repeated index vector and mask must return exactly those rows in order. Selections are also chained on temporary tables (vector then vector, mask then vector) and one mask in six selects no row. Unparenthesised chains of two table operators (all six) must group from the left; index literals of every unsigned kind and indices held in variables select the same rows.",
    note="An empty result may be a 0-row table or an error; single-row tables are not selected through a one-element mask (that literal is a scalar).",
    ref="6/C18"),
 }
